@@ -262,8 +262,55 @@ func (v *Verifier) typeID(t types.Type) int {
 }
 
 // FindFunctions returns the SSA functions (all instances) for a contract key.
+// FindFunctions returns the functions (for generic code: the fully instantiated
+// instances the program uses) with this key. An instance whose type arguments still
+// mention a type parameter of an enclosing generic is not a concrete function; what it
+// stands for is verified through the concrete instances.
 func (v *Verifier) FindFunctions(key string) []*ssa.Function {
-	return v.funcsByKey[key]
+	var out []*ssa.Function
+	for _, f := range v.funcsByKey[key] {
+		open := false
+		for _, ta := range f.TypeArgs() {
+			if mentionsTypeParam(ta) {
+				open = true
+			}
+		}
+		if !open {
+			out = append(out, f)
+		}
+	}
+	return out
+}
+
+func mentionsTypeParam(t types.Type) bool {
+	found := false
+	var walk func(t types.Type, depth int)
+	walk = func(t types.Type, depth int) {
+		if found || depth > 8 {
+			return
+		}
+		switch u := t.(type) {
+		case *types.TypeParam:
+			found = true
+		case *types.Pointer:
+			walk(u.Elem(), depth+1)
+		case *types.Slice:
+			walk(u.Elem(), depth+1)
+		case *types.Array:
+			walk(u.Elem(), depth+1)
+		case *types.Map:
+			walk(u.Key(), depth+1)
+			walk(u.Elem(), depth+1)
+		case *types.Named:
+			if ta := u.TypeArgs(); ta != nil {
+				for i := 0; i < ta.Len(); i++ {
+					walk(ta.At(i), depth+1)
+				}
+			}
+		}
+	}
+	walk(t, 0)
+	return found
 }
 
 type FuncResult struct {
